@@ -7,4 +7,6 @@ MC_PhasesQ  == {-17, 7, 30}
 MC_Ratios   == {<<1,4>>, <<1,3>>, <<1,2>>, <<1,1>>, <<2,1>>, <<3,1>>, <<4,1>>, <<8,1>>,
                 <<3,2>>, <<2,3>>}
 MC_RatiosQ  == {<<1,3>>, <<1,2>>, <<1,1>>, <<2,1>>, <<3,1>>, <<3,2>>}
+MC_BeamSim   == 0..359
+MC_PhasesSim == (-1080)..1080
 =============================================================================
